@@ -17,6 +17,8 @@ LEVEL = "exploration"
 FIXVAL = {"scale": (1.7, 0.6, 1), "shape": (1.3, 2.2, 1), "loc": (0.0, 0.25, 0), "mu": (0.45, -0.2, 0.0), "sigma": (0.45, 0.8, 1),
           "delta": (2.5, 0.7, 1), "kappa": (2.5, 0.8, 1), "lambda": (0.6, 1.4, 1), "mean": (1.8, 2.6, 1), "std": (0.9, 0.5, 1),
           "vmu": (0.3, -0.4, 0)}
+# a fourth value for circular locations: outside [-pi, pi] (scipy's von Mises fit wraps the location)
+FIXVAL_EXTRA = {"vmu": 4.0}
 TRUE = {"WeibullDistribution": dict(alpha=1.5, beta=1.6, gamma=0.5),
         "LogNormalDistribution": dict(mu=0.5, sigma=0.4),
         "NormalDistribution": dict(mu=0.5, sigma=0.6),
@@ -67,7 +69,7 @@ def run_case(case):
     fam, fixed_names, which = case["family"], case["fixed"], case["which"]
     cls, names, roles = zoo.FAMILIES[fam]
     role = dict(zip(names, roles))
-    fixed = {n: FIXVAL[role[n]][which] for n in fixed_names}
+    fixed = {n: (FIXVAL[role[n]][which] if which < 3 else FIXVAL_EXTRA.get(role[n], FIXVAL[role[n]][0])) for n in fixed_names}
     viol = []
     count = {"checks": 0}
 
@@ -222,7 +224,7 @@ def main(ctx):
     for fam, (cls, names, roles) in zoo.FAMILIES.items():
         for k in range(1, len(names) + 1):
             for fx in itertools.combinations(names, k):
-                for which in (0, 1, 2):
+                for which in ((0, 1, 2, 3) if (fam == "VonMisesDistribution" and "mu" in fx) else (0, 1, 2)):
                     cases.append({"family": fam, "fixed": list(fx), "which": which, "mode": "construct"})
                     if k == len(names):
                         continue
